@@ -1,2 +1,20 @@
 # Table of claimed checks (read by mk_manifest.py).  A check is listed here only once its quick tier runs
 # clean on the unchanged tree (no unknown, no unsupported operation, no divergence, covers populated).
+
+claim('C06', 'model_checking',
+      'symbolic execution of the real framing code with z3 (all header bytes, chunk schedules, both maximum sizes) against an RFC 4271 framing oracle; per-path concrete replay',
+      'Every feasible path of Connection._reader_async/_reader (all chunk schedules and EOF positions within the bound), reader_async/reader (19 fully symbolic header bytes, msg_size symbolic over 4096/65535) and Protocol.read_message is executed on symbolic bytes; on each path z3 shows for ALL byte values that the result equals the RFC 4271 4.1/6.1 oracle (1/1, 1/2 carrying the length, 1/3, exact body, nothing read after an error). Bounded: bodies <= 3 (quick) / 8 (thorough) bytes are delivered, longer ones only reach the length checks.',
+      'Trusted: z3, CPython, the sx carriers (each path is re-run on its model in a clean interpreter with real bytes/struct and must agree), the framing oracle (oracle/frame.py, written from RFC 4271). recv_into contract stubbed; no real sockets.',
+      'DESIGN.md section 5 C06')
+
+claim('C12', 'model_checking',
+      'symbolic execution of the real timer code with time as a z3 Real and the hold time symbolic; z3 decides each obligation for all instants and all H',
+      'ReceiveTimer.check_ka_timer/check_ka, SendTimer.need_ka and HoldTime.keepalive are executed from states built by their real constructors at a symbolic instant t0 and consulted at a symbolic instant t1>=t0 (reals n+f, unbounded), H symbolic over 0 and 3..65535: fires => silence > H; silence >= H+1 => fires; a message re-arms; gap > floor(H/3) => KEEPALIVE due; interval <= H/3; H=0 => never fires, no KEEPALIVE, second KEEPALIVE refused 2/6. Plus the binary64 lemma int(h/3)==h//3 (QF_FP). The loop-level obligations (real Peer._main under a virtual clock) are units loop/*.',
+      'Trusted: z3 (LRA+LIA, QF_FP), the time stub (non-decreasing reals), granularity 1 s from int(time.time()) is part of the claim.',
+      'DESIGN.md section 5 C12')
+
+claim('C20', 'model_checking',
+      'symbolic execution of the real healthcheck loop()/one() with z3: inductive step unbounded in rise/fall/counter + bounded model checking of result sequences against a safety monitor',
+      'step: from every state satisfying the invariant, one real one() call with rise, fall, checks symbolic in 1..10^9: invariant preserved, UP only on success with checks+1>=rise (directly only if rise<=1), DOWN symmetric, counter restarts at 1 on a contrary result, lines only for UP/DOWN/DISABLED and only on change with debounce. bmc: the real loop() from INIT for every result sequence of <=5 (quick) / 8 (thorough) rounds with rise/fall symbolic, debounce, withdraw-on-down and disable-file toggles symbolic: UP announced only after rise consecutive successes, DOWN only after fall failures, UP/DOWN eventually announced, metric+increase per IP, withdraw of every IP on exit.',
+      'Trusted: z3, the AST lift of the nested closures (re-done from the current source every run), stubs for check()/disable file/sleep/signal/stdout. Text of the lines is concrete per path (metrics concrete).',
+      'DESIGN.md section 5 C20')
